@@ -412,10 +412,30 @@ Definition gate_eqb (a b : list side_write) : bool := all2 side_write_eqb a b.
 (* run_ended is attempted iff no side write of the gate failed *)
 Definition gate_open (gate : list side_write) (f : side_write -> bool) : bool := negb (existsb f gate).
 
-(* run_session with the gate and the run's failing side writes as parameters (at an empty gate it IS run_session,
-   for every failure pattern: run_session_x_ungated in the proofs) *)
+(* what the failing side writes of a run do BEFORE its exit: they turn into the outcomes the run model already has -
+   SwArtifacts: the context bundle cannot be written => the compile of a linked provider run fails (compile_ok = false:
+                session_ended context_compile_failed, nothing else);
+   SwCheckpoints: the auto checkpoint in front of a mutating tool fails (t_auto 1 => 2: checkpoint_failed, the tool still
+                runs), a checkpoint-create envelope fails (checkpoint_failed).
+   (SwSnapshot and SwThreadCache are written after the frames: they change nothing a run logs - unless the gate says so.) *)
+Definition tool_under (f : side_write -> bool) (t : tool_out) : tool_out :=
+  {| t_auto := if f SwCheckpoints && (t_auto t =? 1) then 2 else t_auto t; t_res := t_res t |}.
+Definition call_under (f : side_write -> bool) (c : call) : call :=
+  {| c_allowed := c_allowed c; c_lock := c_lock c; c_tool := tool_under f (c_tool c) |}.
+Definition req_under (f : side_write -> bool) (r : req_out) : req_out :=
+  match r with ROk pf has_id calls => ROk pf has_id (map (call_under f) calls) | _ => r end.
+Definition inp_under (f : side_write -> bool) (inp : input) : input :=
+  match inp with
+  | IPrompt cok reqs => IPrompt (cok && negb (f SwArtifacts)) (map (req_under f) reqs)
+  | ITool lock t => ITool lock (tool_under f t)
+  | ICheckpoint r => ICheckpoint (match r with CkCreatedOk => if f SwCheckpoints then CkFail else CkCreatedOk | _ => r end)
+  end.
+
+(* run_session with the gate and the run's failing side writes as parameters (at an empty gate it IS run_session on the
+   input the failing side writes leave, for every failure pattern: run_session_x_ungated in the proofs) *)
 Definition run_session_x (gate : list side_write) (f : side_write -> bool)
-           (g : cfg) (sid : N) (link : option N) (aok : ck -> bool) (inp : input) : list ev :=
+           (g : cfg) (sid : N) (link : option N) (aok : ck -> bool) (inp0 : input) : list ev :=
+  let inp := inp_under f inp0 in
   let evs := ES sid 0 SStarted :: run_body g sid link aok inp in
   evs ++ match link with
          | Some mid => if gate_open gate f then capp aok (CRunEnded sid mid (last_reason sid evs)) else []
@@ -513,6 +533,14 @@ Definition act_events_x (gate : list side_write) (swf : N -> side_write -> bool)
   | APost g mid sid inp => post_message_x gate (swf sid) g aok mid sid inp
   | AInput g sid inp => run_session_x gate (swf sid) g sid None aok inp
   | AJob j o => job aok j o
+  end.
+
+(* the activity as the failing side writes leave it (same ids, same configuration) *)
+Definition act_under (swf : N -> side_write -> bool) (a : act) : act :=
+  match a with
+  | APost g mid sid inp => APost g mid sid (inp_under (swf sid) inp)
+  | AInput g sid inp => AInput g sid (inp_under (swf sid) inp)
+  | AJob j o => AJob j o
   end.
 
 (* l is a merge of a and b (both orders kept) *)
